@@ -222,7 +222,7 @@ class Oracle:
                 if verdict in ("reject", "illformed"):
                     st["rejects"] += 1
                     rec["failure"] = dict(kind="result-not-in-inferred-type", verdict=verdict, value=rec["run"].value[:400],
-                                          lenient="(lenient 1)" in v, fnres="(fnres 1)" in v, nevertop="(nevertop 1)" in v,
+                                          lenient="(lenient 1)" in v, fnres="(fnres 1)" in v, nevertop="(nevertop 1)" in v, fnreslen="(fnreslen 1)" in v,
                                           never=rec["run"].tables.find("(types (union)") >= 0 and rec["run"].rtype == 0)
                 elif not wt:
                     st["illtyped_tuples"] += 1
@@ -417,8 +417,8 @@ def explode(src):
     return [",\n".join(steps[:-1] + ["[" + p + "]"]) for p in parts]
 
 
-def cut_cons_tails(src):
-    """every outermost `Cons[h, t]` literal becomes `Cons[h, Nil]`"""
+def cut_cons_tails(src, drop_head=False):
+    """every outermost `Cons[h, t]` literal becomes `Cons[h, Nil]` (or, with drop_head, `t`)"""
     out, i = [], 0
     flat = src.replace("[", "(").replace("]", ")").replace("{", "(").replace("}", ")")
     while i < len(src):
@@ -426,7 +426,7 @@ def cut_cons_tails(src):
             j = balanced_end(flat, i + 4)
             parts = split_top(src[i + 5:j])
             if len(parts) == 2:
-                out.append("Cons[" + parts[0].strip() + ", Nil]")
+                out.append(parts[1].strip() if drop_head else "Cons[" + parts[0].strip() + ", Nil]")
                 i = j + 1
                 continue
         out.append(src[i]); i += 1
@@ -586,11 +586,11 @@ class Classifier:
         # `Cons[h, t]` literal cut to `Cons[h, Nil]` the program is accepted and passes
         if not re.search(r"%(list|iter)\b", s0):
             return False
-        v = cut_cons_tails(src)
-        if v == src:
+        vs = [v for v in (cut_cons_tails(src, False), cut_cons_tails(src, True)) if v != src]
+        if not vs:
             return False
-        rec = self.outcomes([v], mods)[0]
-        return rec["status"] == "accepted" and not rec["failure"]
+        recs = self.outcomes(vs, mods)
+        return any(r["status"] == "accepted" and not r["failure"] for r in recs)
 
     # ---- implicit-nil-application (F58): a callable at the HEAD of a chain (a builtin `__b__` or an
     # import `%m.f`) is applied to the implicit flowing nil with no argument check. Signature: with
@@ -619,11 +619,13 @@ class Classifier:
             # and the value does inhabit a function's DECLARED result type (the call site's type has
             # the back-reference re-bound, e.g. to the enclosing function type)
             s0 = strip_strings(src)
-            return bool(failure.get("fnres")) and re.search(r"'[a-z_][A-Za-z0-9_]*\s*(?:<[^=\n]*>)?\s*=[^\n]*\^", s0) is not None \
+            return bool(failure.get("fnres") or failure.get("fnreslen")) and re.search(r"'[a-z_][A-Za-z0-9_]*\s*(?:<[^=\n]*>)?\s*=[^\n]*\^", s0) is not None \
                 and re.search(r"#[^{}]*\{[^{}]*=[A-Z][A-Za-z0-9_]*\[[^\]]*[a-z]", s0) is not None \
                 and re.search(r"\S\s+\^\s*[}|\n,]", s0) is None
-        recs = self.outcomes(prefixes(src)[:16], mods)
-        return any(r["status"] == "accepted" and r["failure"] and r["failure"].get("lenient") for r in recs)
+        pre = prefixes(src)[:16]
+        recs = self.outcomes(pre, mods)
+        return any(r["status"] == "accepted" and r["failure"] and r["failure"].get("kind") == "result-not-in-inferred-type"
+                   and self.sig_f59(p_src, mods, r["failure"]) for p_src, r in zip(pre, recs))
 
     # F1: compile_tail_call never checks the argument. Signature: the program has a tail call, and
     # the variant in which every tail call is an ORDINARY call of a function with the same
